@@ -275,7 +275,8 @@ impl core::ops::Neg for Num {
             Self::Float(x) => Self::Float(-x),
             Self::Dec(n) => match n.strip_prefix('-') {
                 Some(pos) => Self::Dec(pos.to_string().into()),
-                None => Self::Dec(alloc::format!("-{n}").into()),
+                // a decimal number may have been read with an explicit plus sign, like `+1.5`
+                None => Self::Dec(alloc::format!("-{}", n.strip_prefix('+').unwrap_or(&n)).into()),
             },
         }
     }
